@@ -278,8 +278,8 @@ Proof.
   - rewrite IH by exact Hl. destruct (existsb (Nat.eqb i) idx) eqn:Ex.
     + rewrite orb_true_r. reflexivity.
     + rewrite orb_false_r. destruct (Nat.eqb i k) eqn:E; [|reflexivity].
-      apply Nat.eqb_eq in E. subst k. rewrite Ek. symmetry. apply nth_error_None.
-      rewrite <- Hl. apply nth_error_None. exact Ek.
+      apply Nat.eqb_eq in E. subst k. rewrite Ek. apply nth_error_None.
+      rewrite <- Hl. apply (proj1 (nth_error_None src i)). exact Ek.
 Qed.
 
 (* ---------------------------------------------------------------------------------------- *)
@@ -297,6 +297,12 @@ Proof.
   rewrite skipn_app, Nat.sub_diag, skipn_all. reflexivity.
 Qed.
 
+Lemma drop_last_app2 {A : Type} (u : list A) a b : drop_last 2 (u ++ [a; b]) = u.
+Proof. exact (drop_last_app u [a; b]). Qed.
+
+Lemma last_n_app2 {A : Type} (u : list A) a b : last_n 2 (u ++ [a; b]) = [a; b].
+Proof. exact (last_n_app u [a; b]). Qed.
+
 Lemma drop_last_last_n {A : Type} k (x : list A) : (k <= length x)%nat ->
   x = drop_last k x ++ last_n k x /\ length (last_n k x) = k.
 Proof.
@@ -308,3 +314,33 @@ Qed.
 (* ---------------------------------------------------------------------------------------- *)
 Lemma py_int_nonneg x : 0 <= x -> py_int x = Qfloor x.
 Proof. intros H. unfold py_int. apply Qle_bool_iff in H. rewrite H. reflexivity. Qed.
+
+(* ---------------------------------------------------------------------------------------- *)
+(* the optimiser's preconditions on concatenated vectors                                     *)
+(* ---------------------------------------------------------------------------------------- *)
+Lemma eqb_add_l a b c : Nat.eqb (a + b) (a + c) = Nat.eqb b c.
+Proof. induction a as [|a IH]; [reflexivity|]. simpl. exact IH. Qed.
+
+Lemma precondition_ok x lo hi : within lo x hi = true -> strict lo hi = true -> lsq_precondition x lo hi = None.
+Proof.
+  intros W S. destruct (within_length _ _ _ W) as [L1 L2]. unfold lsq_precondition.
+  rewrite L1, L2, !Nat.eqb_refl, S, W. reflexivity.
+Qed.
+
+Lemma precondition_app x lo hi x2 lo2 hi2 : within lo x hi = true -> strict lo hi = true ->
+  lsq_precondition (x ++ x2) (lo ++ lo2) (hi ++ hi2) = lsq_precondition x2 lo2 hi2.
+Proof.
+  intros W S. destruct (within_length _ _ _ W) as [L1 L2]. unfold lsq_precondition.
+  rewrite !app_length, L1, L2, !eqb_add_l.
+  rewrite strict_app by congruence. rewrite within_app by congruence. rewrite S, W. reflexivity.
+Qed.
+
+(* when the droplet part is fine the verdict on the whole is the verdict on the appended entries *)
+Lemma precondition_app_lengths x lo hi x2 lo2 hi2 : length lo = length x -> length hi = length x ->
+  strict lo2 hi2 = false -> length lo2 = length x2 -> length hi2 = length x2 ->
+  lsq_precondition (x ++ x2) (lo ++ lo2) (hi ++ hi2) = Some EBoundsNotStrict.
+Proof.
+  intros L1 L2 S M1 M2. unfold lsq_precondition.
+  rewrite !app_length, L1, L2, M1, M2, !Nat.eqb_refl. simpl.
+  rewrite strict_app by congruence. rewrite S, andb_false_r. reflexivity.
+Qed.
